@@ -3214,8 +3214,10 @@ class Fparser2Reader():
                 construct_name = nonlabel_do.item.name
                 # Check that the construct-name is not referred to inside
                 # the Loop (but exclude the END DO from this check).
+                # (Fortran names are case insensitive.)
                 names = walk(node.content[:-1], Fortran2003.Name)
-                if construct_name in [name.string for name in names]:
+                if construct_name.lower() in [name.string.lower()
+                                              for name in names]:
                     raise NotImplementedError(
                         "Unsupported label reference within DO")
 
